@@ -31,6 +31,9 @@ def install(reg):
 
     stdlib.install(reg)
     pathmodels.install(reg)
+    from . import mimemodels
+
+    mimemodels.install(reg)
     try:
         from . import dulwichmodels
 
